@@ -24,7 +24,7 @@ try:
                 break
         t = json.load(open(f))
         msg = subprocess.check_output(['git', '-C', '/repo', 'log', '-1', '--format=%s', first_pass], text=True).strip() if first_pass else None
-        print(os.path.basename(f), t['violation']['class'], [o['op'] for o in t['ops']], '->', first_pass and first_pass[:8], msg)
+        print(os.path.basename(f), t['violation']['class'], [o['op'] for o in t.get('ops', [])] or t.get('fmt'), '->', first_pass and first_pass[:8], msg)
         res[f] = first_pass
 finally:
     for c, d in wts.items():
